@@ -9,7 +9,7 @@ LEVEL = "exploration"
 RULE = ("same-size families: every multiset of n files (n<=3 quick, <=5 thorough) over the variants {base, flipped at 0, "
         "at L/2, at L-1, at 4096} for L in {1,4096,4097,65536,131073}, laid out over 1-3 directories and 1-2 roots (one layout puts the second root on a loop-mounted ext4 image, i.e. a second device with its own hashing pool; one puts the files on two fresh tmpfs instances below one root, where the k-th files have equal inode numbers on different file systems), with "
         "optional hard links and repeated / overlapping roots; x replication filter {default, --rf-over 0/2/3, "
-        "--rf-under 2/3, --unique} x prefix/suffix sizes, disk kind (thorough: hash, cache, -t 1, transform keep). "
+        "--rf-under 2/3, --unique} x prefix/suffix sizes, disk kind, transform {keep, shrink to two bytes (also with -H)} (thorough: hash, cache, -t 1). "
         "Oracle: independent partition of the scanned files by bytes + replica count + strict filter; the reported set of "
         "path sets must be equal; no path twice; no unscanned path. Non-trivial = expected result has at least one "
         "group; distinct by (tree, configuration).")
@@ -113,6 +113,12 @@ def cases(tier, seed):
                     if (quick and idx % 9 == 0) or (not quick and idx % 3 == 0):
                         m2 = dict(meta, tr=["keep", "pipe"])
                         out.append({"tree": tree, "roots": roots, "args": args + G.transform_args("keep", "pipe"),
+                                    "env": {"FCLONES_VERIF_DISK_KIND": disk}, "meta": m2})
+                    if (quick and idx % 9 == 4) or (not quick and idx % 3 == 1):
+                        # a transform that changes the length (first two bytes), with and without --match-links
+                        ml = ["-H"] if (idx // 9) % 2 else []
+                        m2 = dict(meta, tr=["shrink", "pipe"], extra=extra + ml)
+                        out.append({"tree": tree, "roots": roots, "args": args + ml + G.transform_args("shrink", "pipe"),
                                     "env": {"FCLONES_VERIF_DISK_KIND": disk}, "meta": m2})
     return out
 
